@@ -200,6 +200,7 @@ func c13RunChild(dir string, n int, sp c13Spec) c13ChildRes {
 // ---------------------------------------------------------------- exit entry points
 
 type c13Entry struct {
+	Variant         string // which arguments (the catalogue's standard ones when empty)
 	Pkg, Ctor, Meth string // Ctor == "": package-level function Meth
 	Imports         []string
 	Call            string // statements that reach the entry point
@@ -216,10 +217,14 @@ func (e c13Entry) coq() string {
 }
 
 func (e c13Entry) name() string {
-	if e.Ctor == "" {
-		return e.Pkg + "." + e.Meth
+	v := ""
+	if e.Variant != "" {
+		v = " [" + e.Variant + "]"
 	}
-	return e.Pkg + "." + e.Ctor + "(...)." + e.Meth
+	if e.Ctor == "" {
+		return e.Pkg + "." + e.Meth + v
+	}
+	return e.Pkg + "." + e.Ctor + "(...)." + e.Meth + v
 }
 
 func c13ExitCatalogue() []c13Entry {
@@ -247,7 +252,20 @@ func c13ExitCatalogue() []c13Entry {
 	// Options.Args); the host program itself was started with a flag of its own.
 	l = append(l, c13Entry{Pkg: "flag", Meth: "Parse", Imports: []string{"flag"}, Call: `flag.Parse()`, Region: "flag-parse-host",
 		Args: []string{"prog", "-c13bad"}, HostArgs: []string{"host", "-c13hostonly"}})
-	return l
+	// argument dimension: an exit entry point must panic whatever it is given (exit codes including 0 and the
+	// "success" looking ones, no message, nil, empty strings). Y judges a replacement by its callees, not by
+	// its arguments, so these are further cases of the same entries.
+	var more []c13Entry
+	for _, code := range []string{"0", "1", "2", "-1", "255", "256", "c13code"} {
+		more = append(more, c13Entry{Pkg: "os", Meth: "Exit", Imports: []string{"os"}, Variant: "code " + code,
+			Call: "c13code := 0; _ = c13code; os.Exit(" + code + ")", NoFixToo: code == "0"})
+	}
+	for _, v := range [][2]string{{"Fatal", `Fatal()`}, {"Fatal", `Fatal(nil)`}, {"Fatal", `Fatal("")`}, {"Fatalf", `Fatalf("")`}, {"Fatalln", `Fatalln()`}, {"Fatal", `Fatal(0, "bye", nil)`}} {
+		more = append(more, c13Entry{Pkg: "log", Meth: v[0], Imports: []string{"log"}, Variant: v[1], Call: "log." + v[1], NoFixToo: v[1] == "Fatal()"})
+		more = append(more, c13Entry{Pkg: "log", Ctor: "New", Meth: v[0], Imports: []string{"log", "bytes"}, Variant: v[1],
+			Call: "var b bytes.Buffer; l := log.New(&b, \"\", 0); l." + v[1]})
+	}
+	return append(l, more...)
 }
 
 func c13ExitScript(e c13Entry) string {
@@ -1031,6 +1049,47 @@ func runC13(args []string) error {
 		}
 	}
 
+	// ---------------------------------------------------------------- C''. the yaegi command: environment defaults and flags of the opt-in sets
+	var cliCases []string
+	if bin, err := c13BuildYaegiCmd(scratch); err != nil {
+		sm.HarnessViolations = append(sm.HarnessViolations, refMismatch{ID: 0, Region: "", Input: "cmd/yaegi", Impl: err.Error(), Ref: "the command builds"})
+	} else {
+		cells := c13CliCells()
+		type cliRes struct {
+			on     bool
+			detail string
+		}
+		cr := make([]cliRes, len(cells))
+		parallelMap(len(cells), 0, func(i int) { cr[i].on, cr[i].detail = c13RunCli(bin, cells[i]) })
+		for i, c := range cells {
+			ref := false
+			if c.FlagVal != nil {
+				ref = *c.FlagVal
+			} else if c.Value != nil {
+				ref, _ = strconv.ParseBool(*c.Value)
+			}
+			in := map[string]any{"kind": "cli", "command": "yaegi run -noautoimport -e '" + c.Probe + "'", "variable": c.Var, "value": c.Value, "flag": c.Flag, "flag_value": c.FlagVal}
+			cid := newID(in)
+			val, fl := "None", "None"
+			if c.Value != nil {
+				val = "(Some " + coqStr(*c.Value) + ")"
+			}
+			if c.FlagVal != nil {
+				fl = "(Some " + coqBool(*c.FlagVal) + ")"
+			}
+			cliCases = append(cliCases, fmt.Sprintf("(%d%%N, %s, %s, %s, %s)", cid, val, fl, coqBool(cr[i].on), coqBool(ref)))
+			sm.Evaluations++
+			sm.ImplComparisons++
+			sm.RefComparisons++
+			sm.count("cli")
+			distinct.add("cli", c.Var, val, fl)
+			if cr[i].on != ref || cr[i].detail != "" {
+				sm.RefMismatches = append(sm.RefMismatches, refMismatch{ID: cid, Region: "", Input: in,
+					Impl: map[string]any{"opt_in_set_loaded": cr[i].on, "detail": cr[i].detail}, Ref: map[string]any{"opt_in_set_loaded": ref}})
+			}
+		}
+	}
+
 	// ---------------------------------------------------------------- D. redirected I/O (child processes)
 	ios := c13IOCatalogue()
 	ires := make([]c13ChildRes, len(ios))
@@ -1290,6 +1349,11 @@ func runC13(args []string) error {
 	if err := chunk("io", "io_case", "io_mis", ioCases, 200); err != nil {
 		return err
 	}
+	if len(cliCases) > 0 {
+		if err := chunk("cli", "cli_case", "cli_mis", cliCases, 400); err != nil {
+			return err
+		}
+	}
 	if err := chunk("ioform", "io_case", "io_mis", formCases, 400); err != nil {
 		return err
 	}
@@ -1314,6 +1378,7 @@ func runC13(args []string) error {
 	sm.Rule = "import matrix: every key of stdlib.Symbols at run time plus unsafe, syscall, os/exec x 5 import forms (exhaustive); exit entry points and redirected I/O functions: the whole catalogue, each in its own child process (exhaustive over the catalogue); " +
 		"replacement types (found by reflection in stdlib.Symbols) x values a script can obtain x routes to the object behind them (own methods, method value/expression, interface assertion, embedding, field selection, reflect Field/FieldByName/scan/Method/Convert) x exit-like methods, each in its own child process; " +
 		"output functions (print builtins, fmt.Print*, log.Print*/Output) x statement forms (plain, defer, go, function value, go/defer of a value, closure, goroutine body, deferred closure, init, package-level initialiser, method, named function, go of a named function, defer in a loop), each cell in its own child process; " +
+		"the yaegi command built from the same tree: 3 YAEGI_* variables x unset/empty/every ParseBool spelling/other words and numbers, plus explicit flags overriding the variable (exhaustive over that list); exit entry points also with exit code 0 and other codes, no/nil/empty messages; " +
 		"several interpreters in one process: fixed and seeded interleavings of New / Use(stdlib|unrestricted) / script compilations over 2..3 interpreters with their own Options, each in its own child process; " +
 		"environment: seeded sequences of 1..40 operations over 7 keys (empty key, key with '=', a host sentinel), values and ExpandEnv strings with '$' syntax, Options.Env with duplicates / missing '=' / empty entries, 3 import forms of os; " +
 		"distinct = distinct inputs; non-trivial = an environment sequence has >= 3 operation kinds and at least one mutation (every matrix cell and catalogue entry counts)"
